@@ -174,7 +174,7 @@ CHECKS = {
         "hard_timeout_s": {"quick": 900, "thorough": 3600},
         "meta": {
             "rule": "-race build of the harness; bounded-exhaustive enumeration of two-goroutine programs: every unordered pair (incl. an operation with itself) of 51 public Machine operations (mutations, checks, getters, When*/NewStateCtx subscriptions, handler / tracer binding, logger configuration, Log, Export, String/Inspect, queue getters, Eval, OnChange, ParseStates, SetSchema, Dispose), each operation 3 times, x 5 machine contexts (idle; a third goroutine running transitions with handlers and an Auto state; the same with a final handler that panics; a third goroutine adding and removing errors; cold = schema just replaced, lazily built copies absent) plus every pair of 20 NetworkMachine readers against a goroutine feeding clock updates (NetMachInternal.UpdateClock): about 6800 programs; oracle: the Go race detector's reports, read from the race log after every program and attributed to it; signature = first repository frame of both conflicting accesses",
-            "assumptions": ["the race detector is a happens-before analysis of the executed program: a report does not need the two accesses to overlap in this run, but a race on a path the run did not take is not seen (each operation is repeated and run in 4 contexts to widen control flow)", "programs of more than two API goroutines are not enumerated (every data race involves two accesses; the third goroutine provides the transition context)", "programs that do not finish within 20s are counted (programs_not_finished), not judged"],
+            "assumptions": ["the race detector is a happens-before analysis of the executed program: a report does not need the two accesses to overlap in this run, but a race on a path the run did not take is not seen (each operation is repeated and run in 5 contexts to widen control flow)", "programs of more than two API goroutines are not enumerated (every data race involves two accesses; the third goroutine provides the transition context)", "programs that do not finish within 20s are counted (programs_not_finished), not judged"],
         },
     },
     "C15": {
